@@ -347,6 +347,31 @@ def check(rep, F, tier, replay=None):
         if not ok:
             rep.violation("LENIENT", "write-back", "Address::to_bytes no longer writes a malformed address's bytes back unchanged", {})
     wildarms.check(rep, F, "C11")
+    # Byron attributes are stored as read: no constructor or decoder may normalise them (e.g. drop an explicit mainnet magic)
+    rep.rule("BYRON-verbatim", "every function that builds a Byron `Attributes` value stores derivation_path and protocol_magic exactly as given / read: the stored operands pass through no filtering or mapping call (Option::filter / map / and_then, NetworkInfo lookups), so an address that spells out a redundant attribute is re-emitted with it")
+    ATTR = [a for a in F.adts if a.endswith("legacy_address::address::Attributes")]
+    n_attr = 0
+    if len(ATTR) != 1:
+        rep.lost("legacy_address::address::Attributes not found")
+    else:
+        for fid_, fn_ in F.fns.items():
+            if "/tests/" in fn_["file"] or F.is_derived(fid_):
+                continue
+            org_ = None
+            for bb_ in fn_["bbs"]:
+                for st_ in bb_["st"]:
+                    if st_[1] == "=" and st_[3][0] == "agg" and st_[3][2] == ATTR[0]:
+                        org_ = org_ or ff.Origins(F, fid_)
+                        n_attr += 1
+                        rep.inst("BYRON-verbatim")
+                        for op_ in st_[3][4]:
+                            o_ = org_.of_operand(op_)
+                            badc = sorted({x.split("@")[0][5:] for x in o_ if x.startswith("call:") and (x.split("@")[0].rsplit("::", 1)[-1] in ("filter", "map", "and_then", "take_if", "xor", "or", "unwrap_or", "unwrap_or_default", "protocol_magic", "mainnet", "network_id") or "NetworkInfo" in x)})
+                            if badc:
+                                rep.violation("BYRON-verbatim", "%s|%s" % (F.key(fid_), ",".join(H.short(b) for b in badc)), "%s stores a Byron attribute that went through %s: an attribute present in the parsed address can be dropped or altered, so bytes / Base58 / Bech32 of the re-encoded address differ from the input" % (F.key(fid_), ", ".join(H.short(b) for b in badc)), {})
+        # the decoder must build the value itself or through a constructor that is judged above; it must not post-process the result
+        dec = [k for k in F.fns if k.endswith("Deserialize for legacy_address::address::Attributes>::deserialize") or ("legacy_address::address" in k and "Attributes" in k and k.endswith("::deserialize"))]
+        rep.floor("constructions of Byron Attributes inspected", 2, n_attr)
     # Byron attribute map: the decoder accepts the two entries in either order, so byte identity of a round trip rests on the writer
     # alone: key 1 (derivation payload) before key 2 (protocol magic), the canonical order every existing Byron address uses.
     from e2_all import Inventory, short_ty
